@@ -15,6 +15,9 @@ from pyvc.executor import Executor
 from pyvc.natives import NATIVES, find_function, val_order_axioms
 from pyvc import solve
 import pyvc.pandas_model
+import contracts as _c
+if os.environ.get('NEW_CONTRACTS'):
+    _c.__path__.append(os.environ['NEW_CONTRACTS'])
 for m in sys.argv[1].split(','):
     importlib.import_module('contracts.' + m)
 fn, case, sub = sys.argv[2], sys.argv[3], sys.argv[4]
